@@ -56,12 +56,12 @@ var (
 )
 
 // leadJobs: behaviours taken from a counter-example TLC found in the design
-// model (NoPanic, D = 2, 12 pages: the last node of a tail standing alone
-// behind a full run of D nodes of equal depth), re-sized for fan-out 16:
-// a sub-range of 15*256 + k*16 pages followed by 17-k pages gives the tail
-// <<2 x 16, 0>>.  Variant A meets it in collapse (root), variant B in the
-// first loop of merge (the sub-range sits one level deeper and 16 more pages
-// follow).
+// model of the code before commit 85b29fa (NoPanic, D = 2, 12 pages: the last
+// node of a tail standing alone behind a full run of D nodes of equal depth),
+// re-sized for fan-out 16: a sub-range of 15*256 + k*16 pages followed by
+// 17-k pages gives the tail <<2 x 16, 0>>.  Variant A met the panic in
+// collapse (root), variant B in the first loop of merge (the sub-range sits
+// one level deeper and 16 more pages follow).  Kept as regression cases.
 func leadJobs(ctx *core.Ctx) []job {
 	nf := []int{}
 	a := &attrs{"A", "-", "-", "-"}
